@@ -32,6 +32,12 @@ def run(ctx, replay):
     vcore.validate_all(ctx, "KVStoreTrace", "KVStoreTrace.cfg", tr, describe=c01.describe, dfs=False)
     # sequential histories with reopen as well (snapshots across commits)
     c01.run_kv(ctx, ["--histories", 40 if thorough else 8, "--ops", 24, "--images", 0], "seq")
+    # files a PENDING ROLLUP still needs: real engine, one source store with two rollup targets (5 min, 1 h), half of
+    # the histories finish the first target while the second target store is not open yet (its marks stay pending
+    # across compaction + cleanup of the source), then the second rollup runs: it must still find every source file
+    # (judged by the rollup part of MetricDataTrace: the target holds the reference rollup of everything, once)
+    from props import c03
+    c03.run_mdata(ctx, ["--compact", 0, "--rollup", 60 if thorough else 10, "--images", 0], "pending-rollup")
 
     def stale_read(lines):
         for i, ln in enumerate(lines):
